@@ -10,7 +10,7 @@ COQ_IMPORTS = ['Base.Str', 'Base.Value', 'Proc.RowOps']
 RULE = ('cases = generated tables (0-12 rows, 2-5 columns, values from a small pool so duplicates, nulls and '
         'cross-type equal keys (True/1/Decimal(1.0)) occur) x step configuration; non-trivial = the step changes '
         'the row list (drops/duplicates/restructures at least one row) or raises; distinct = distinct case digest'
-        '; round 4: several conditions on one field with values that occur in it; unpivot patterns with a top-level alternation next to prefix-named fields')
+        '; round 7: unpivot over two matched resources with different columns, and every case also read after all resources were taken; round 4: several conditions on one field with values that occur in it; unpivot patterns with a top-level alternation next to prefix-named fields')
 TRUSTED = ['Coq 8.16.1 kernel + vm_compute (case evaluation)', 'harness/p17.py value printer and oracle',
            'field-name regex matching and re.sub back-references are computed by Python re and handed to the model as tables',
            'tableschema cast of type any/integer/string on typed values is the identity (exercised, not proved)']
@@ -157,8 +157,17 @@ def gen_unpivot(rng):
         for k, _ in sp['keys']:
             if k not in key_names:
                 key_names.append(k)
-    return {'kind': 'unpivot', 'names': stems, 'rows': rows_enc(rows), 'specs': specs, 'regex': regex,
+    case = {'kind': 'unpivot', 'names': stems, 'rows': rows_enc(rows), 'specs': specs, 'regex': regex,
             'extra_keys': key_names, 'value_name': rng.pick(['value', 'val'])}
+    if rng.chance(0.4):
+        # a second matched resource with other columns: each resource is unpivoted by its own field lists, whichever
+        # way the consumer reads the two (round 7)
+        pool2 = ['y2019', 'y2022', 'y1990', 'q2', 'q3', 'total', 'id', 'label', 'y20', 'q1_adj']
+        names2 = rng.sample(pool2, rng.randint(2, 5))
+        if names2 != stems:
+            case['names2'] = names2
+            case['rows2'] = rows_enc([dict((n, rng.pick([None, 3, 4, 'z', False])) for n in names2) for _ in range(rng.randint(1, 4))])
+    return case
 
 
 def step_of(case):
@@ -185,10 +194,17 @@ def run_impl(case):
     if case['kind'] == 'filter_old':
         # the schema's missing-value tokens do not enter into the comparison: conditions compare Python values
         res['missingValues'] = ['', 'a'] if len(case['rows']) % 2 else None
-    out = run_stream([res], step_of(case))
+    resources = [res]
+    if case.get('names2'):
+        resources.append(mk_resource('t2', case['names2'], rows_dec(case['rows2']), types=dict((n, 'any') for n in case['names2'])))
+    # these steps work row by row (deduplicate: per resource): the consumer may take all resources before reading any rows
+    out = run_stream(resources, step_of(case), collect=True)
     if 'error' in out:
         return {'error': out['error'], 'exc': out['exc']}
     r = {'rows': rows_enc(out['rows'][0]), 'fields': field_names(out['dp'], 0), 'nres': len(out['rows'])}
+    if case.get('names2'):
+        r['rows2'] = rows_enc(out['rows'][1])
+        r['fields2'] = field_names(out['dp'], 1)
     if case['kind'] == 'dedup':
         out2 = run_stream([res], step_of(case) + step_of(case))
         r['twice'] = rows_enc(out2['rows'][0]) if 'rows' in out2 else {'error': out2['error']}
@@ -274,6 +290,13 @@ def oracle(case, out):
         return '%s: emitted rows differ from the specified rows (got %d rows, expected %d)' % (case['kind'], len(got), len(exp[1]))
     if case['kind'] == 'unpivot' and out['fields'] != exp[2]:
         return 'unpivot: schema fields %r differ from the rows\' layout %r' % (out['fields'], exp[2])
+    if case['kind'] == 'unpivot' and case.get('names2'):
+        c2 = dict(case, names=case['names2'], rows=case['rows2'])
+        exp2 = expected(c2)
+        if not same_rows(rows_dec(out['rows2']), exp2[1]):
+            return 'unpivot: the second matched resource\'s rows differ from the specified rows (got %d rows, expected %d)' % (len(out['rows2']), len(exp2[1]))
+        if out['fields2'] != exp2[2]:
+            return 'unpivot: the second matched resource\'s schema fields %r differ from the rows\' layout %r' % (out['fields2'], exp2[2])
     if case['kind'] == 'dedup':
         tw = out.get('twice')
         if isinstance(tw, dict) or not same_rows(rows_dec(tw), got):
@@ -338,6 +361,15 @@ def shrinks(case):
     for i in range(len(rows)):
         c = copy.deepcopy(case)
         del c['rows'][i]
+        yield c
+    for i in range(len(case.get('rows2', []))):
+        if len(case['rows2']) > 1:
+            c = copy.deepcopy(case)
+            del c['rows2'][i]
+            yield c
+    if case.get('names2'):
+        c = copy.deepcopy(case)
+        del c['names2'], c['rows2']
         yield c
     for key in ('equals', 'not_equals', 'specs'):
         for i in range(len(case.get(key, []))):
